@@ -7,13 +7,17 @@
  *   - all threads of a round make the first use of fresh TLS keys at the same time (publication race);
  *   - set / replace / values left at exit with a counting notifier;
  *   - the creator drops detached handles immediately (possibly before the thread runs).
- * p_uthread_local_free releases the native key and its block with the wrapper: a round leaves no block behind. */
+ * p_uthread_local_free releases the native key and its block with the wrapper: a round leaves no block behind.
+ * Mode `keys` (argv[2]): a long history of publication races — 1600 fresh keys, each first used by 4 pooled threads at
+ * once and released again; every key must hold each thread's own value (the platform has ~1024 native keys: a
+ * library that keeps any per race runs out and stops holding values). */
 #include <plibsys.h>
 #include <pthread.h>
 #include <stdio.h>
 #include <stdlib.h>
 #include <stdint.h>
 #include <unistd.h>
+#include <sched.h>
 
 #ifdef __clang__
 /* clang does not expand the size-suffixed __atomic_*_N library calls that patomic-c11.c / pspinlock-c11.c use;
@@ -90,10 +94,54 @@ static void *worker (void *arg) {
 	return NULL;
 }
 
+/* ---- mode `keys` ---- */
+#define KT 4
+static PUThreadKey *volatile race_key;
+static volatile int k_round, k_done, k_stop, k_bad;
+
+static void *key_racer (void *arg) {
+	int i = (int) (intptr_t) arg, seen = 0;
+	for (;;) {
+		int r;
+		while ((r = __atomic_load_n (&k_round, __ATOMIC_ACQUIRE)) == seen) { if (__atomic_load_n (&k_stop, __ATOMIC_ACQUIRE)) return NULL; }
+		seen = r;
+		PUThreadKey *k = race_key;
+		uintptr_t v = (uintptr_t) (r * 16 + i + 1);
+		if (p_uthread_get_local (k) != NULL) __atomic_store_n (&k_bad, 1, __ATOMIC_SEQ_CST);      /* first use of the key: publication race */
+		p_uthread_set_local (k, (ppointer) v);
+		p_uthread_yield ();
+		if ((uintptr_t) p_uthread_get_local (k) != v) __atomic_store_n (&k_bad, 2, __ATOMIC_SEQ_CST);
+		p_uthread_set_local (k, NULL);
+		__atomic_fetch_add (&k_done, 1, __ATOMIC_SEQ_CST);
+	}
+}
+
+static int keys_mode (void) {
+	PUThread *th[KT];
+	long base;
+	for (int i = 0; i < KT; i++) if (!(th[i] = p_uthread_create (key_racer, (ppointer) (intptr_t) i, TRUE, NULL))) { fprintf (stderr, "create failed\n"); return 1; }
+	base = live ();
+	for (int r = 1; r <= 1600; r++) {
+		race_key = p_uthread_local_new (NULL);
+		__atomic_store_n (&k_done, 0, __ATOMIC_SEQ_CST);
+		__atomic_store_n (&k_round, r, __ATOMIC_RELEASE);
+		while (__atomic_load_n (&k_done, __ATOMIC_SEQ_CST) != KT) sched_yield ();
+		p_uthread_local_free (race_key);
+		if (k_bad) { fprintf (stderr, "keys: key %d of a history of publication races: %s\n", r,
+			k_bad == 1 ? "a fresh cell is not NULL" : "a thread does not read back the value it stored (the key holds no per-thread value)"); _exit (1); }
+		if (live () != base) { fprintf (stderr, "keys: key %d: allocator imbalance %ld vs %ld\n", r, live (), base); _exit (1); }
+	}
+	__atomic_store_n (&k_stop, 1, __ATOMIC_RELEASE);
+	for (int i = 0; i < KT; i++) { p_uthread_join (th[i]); p_uthread_unref (th[i]); }
+	printf ("ok\n");
+	return 0;
+}
+
 int main (int argc, char **argv) {
 	unsigned seed = argc > 1 ? (unsigned) atoi (argv[1]) : 1;
 	PMemVTable vt = { t_malloc, t_realloc, t_free };
 	p_libsys_init_full (&vt);
+	if (argc > 2 && argv[2][0] == 'k') { p_uthread_current (); return keys_mode (); }
 	p_uthread_current ();                                /* main's own handle + the library key's native key */
 	long base = live ();
 	int used_keys = 0;
